@@ -123,7 +123,7 @@ class LockAnalysis:
         if e.k in ('call', 'construct'):
             k = e.get('callee_key')
             if k:
-                c = self.db.get(k, e.get('callee_inst'))
+                c = self.db.resolve(f, k, e.get('callee_inst'))
                 if c is not None:
                     out.append(c)
             else:
@@ -132,9 +132,7 @@ class LockAnalysis:
                     for a in (e.get('args') or []):
                         p = a.get('path') or ''
                         if p.startswith('lambda@'):
-                            c = self.db.get(p[len('lambda@'):])
-                            if c is not None:
-                                out.append(c)
+                            out.extend(self.db.closure_instances(f, p[len('lambda@'):]))
         return out
 
     def exempt(self, f, field):
